@@ -21,8 +21,8 @@ Import-free, total, computable.  The model is about *object identity and sharing
 * `badCall pre body` is the defective shape "write first, copy afterwards";
 * `mapList` is `utils.map_neuronlist`: run the function over the members, build the result list, and for
   `inplace=True` swap `nl.neurons = res.neurons` and return `nl` itself;
-* the `NeuronList` operators `+ - & |` as navis writes them (`|` with a single neuron appends to the
-  *receiver's* list object).
+* the `NeuronList` operators `+ - & |` as navis writes them (`|` with a single neuron used to append to the
+  *receiver's* list object; repaired, the pre-fix version is kept as `listOrPreFix`).
 
 Graph writes are modelled pessimistically as writing through a view (networkx freezes views against structural
 edits but attribute dictionaries stay shared and writable); `writesOwn` is the syntactic discipline — every
@@ -263,19 +263,20 @@ def listAdd (s : Store) (l : Ref) (o : Ref) : Store × Ref := s.allocLst (s.lst 
 /-- `NeuronList.__sub__` / `__and__` with a membership predicate decided by the caller (`==` on neurons). -/
 def listFilter (s : Store) (l : Ref) (keep : Ref → Bool) : Store × Ref := s.allocLst ((s.lst l).filter keep)
 
-/-- `NeuronList.__or__(neuron)` as navis writes it:
-`neurons = self.neurons` (the receiver's own list object) ; `if not any(n == other …): neurons.append(other)` ;
+/-- `NeuronList.__or__(neuron)` as navis writes it (since the fix PENDING_1):
+`neurons = list(self.neurons)` (a NEW list) ; `if not any(n == other …): neurons.append(other)` ;
 `return self.__class__(neurons)`.  `present` is the outcome of the `any(n == other)` test. -/
 def listOr (s : Store) (l : Ref) (o : Ref) (present : Bool) : Store × Ref :=
+  s.allocLst (if present then s.lst l else s.lst l ++ [o])
+
+/-- HISTORICAL: `__or__(neuron)` as navis wrote it before the fix — `neurons = self.neurons` (the receiver's own list
+object) ; `neurons.append(other)`.  Kept only for the historical witness in `Props/C03`. -/
+def listOrPreFix (s : Store) (l : Ref) (o : Ref) (present : Bool) : Store × Ref :=
   let s1 := if present then s else s.setLst l (s.lst l ++ [o])      -- append to the RECEIVER's list
   s1.allocLst (s1.lst l)
 
 /-- `NeuronList.__or__(NeuronList)`: `self.neurons + [n for n in other if n not in self]` — a new list. -/
 def listOrList (s : Store) (l : Ref) (extra : List Ref) : Store × Ref := s.allocLst (s.lst l ++ extra)
-
-/-- What `__or__` should do for a single neuron (and what the list branch does). -/
-def listOrFixed (s : Store) (l : Ref) (o : Ref) (present : Bool) : Store × Ref :=
-  s.allocLst (if present then s.lst l else s.lst l ++ [o])
 
 /-! ## abstract event traces extracted from the navis source (translator → `Gen/InplaceSpec.lean`)
 
